@@ -18,11 +18,23 @@ CHECKS = {
  "C08": ("Lean theorems: first-derivative table = integral, antisymmetry <a|d|b> = -<b|d|a> for all polynomial prefactors (deriv_antisymm, table_swap), conjugate-transpose fill is correct and the plain-transpose fill is wrong (conj_fill_correct, plain_fill_wrong: the repaired defect); compiled model vs momentum_integral / angular_momentum_integral for every ordered pair in every shell ordering, Hermiticity tested",
          "the written-out r x grad products are executed by the model; their antisymmetry is covered by the correspondence of every ordered pair",
          "Lean 4 proof + differential correspondence over all shell orderings"),
+ "C03": ("Lean theorems for an arbitrary Boys sequence F: the three vertical passes fill V[m][a] with the Rys-form value on m+|a| < m_max (vertical_table_eq_spec), the three horizontal passes reproduce any family satisfying the transfer relations, in particular contracted ones (horizontal_table_eq_spec, contraction_preserves_transfer), the shell swap is a symmetry of the specification (spec_swap); compiled model (with its own 320-bit Boys function) vs point_charge_integral per charge within 1e-8*sqrt(|V_aa V_bb|) and vs nuclear_electron_attraction_integral, every ordered pair of l 0..5, charges on centres / between / far (Boys arguments 0 .. > 1e4)",
+         "the identity Rys/Boys form = Coulomb integral (Gaussian transform of 1/r, Fubini) is specification, not theorem; scipy.hyp1f1 is covered only through the correspondence; block-level composition of the three table theorems with contraction/selection is executed, not yet a single theorem",
+         "Lean 4 proof (OS vertical + HGP horizontal = Rys spec) + differential correspondence"),
+ "C04": ("Lean theorems for an arbitrary Boys sequence: two-electron vertical table = Rys form (vertical_table_eq_spec), electron-transfer table = two-variable Gaussian (Wick) Rys form on |a|+|c| < m_max (etransfer_table_eq_spec, from the consistency of the Wick recursion), horizontal passes shared with C03, physicists' = middle-index swap; compiled model vs ElectronRepulsionIntegral.construct_array_contraction on all 256 l-tuples 0..3 (thorough; 26 in quick) and whole-basis calls in both notations within 1e-6*sqrt((ab|ab)(cd|cd)); ill-conditioned tight-bra/diffuse-ket quartets are reported as the recorded finding F10",
+         "Rys form = Coulomb integral is specification (trusted base); float rounding amplification in the implementation (finding F10) is visible only to the correspondence",
+         "Lean 4 proof (vertical, electron transfer = Rys/Wick spec) + differential correspondence + known-finding matching"),
+ "C05": ("Lean theorems: the general back-end equals the n-th iterated derivative of x^a e^{-ax^2} for all a, n, x (twisted Leibniz rule, Hermite recurrence), the direct back-end agrees with it for orders <= 2 on every component of a full shell, the dispatcher accepts 'direct' iff all orders <= 2 and rejects unknown names, and the order-3 counter-example of the repaired defect; compiled model of both back-ends vs evaluate_basis / evaluate_deriv_basis for all 125 order triples, points on centres and coordinate planes; rejection behaviour compared as an enum",
+         "scipy eval_hermite/comb/perm covered through the correspondence only",
+         "Lean 4 proof + differential correspondence incl. error behaviour"),
+ "C10": ("Kernel-checked complete tables for l <= 10 (decide +kernel): every generated function is a homogeneous harmonic polynomial (genuine MvPolynomial Laplacian via laplacian_sound), rows are orthonormal in the metric of unit-normalised Cartesians for every accepted order/sign convention, cosine/sine partners are f*Re(x+iy)^m, f*Im(x+iy)^m with the same f positive at the pole, label validation = permutation of the canonical labels with one optional leading '-'; default orders extracted from the source by the translator and compared with the model's by decide; compiled model vs generate_transformation for all l <= 10, Cartesian permutations, order/sign patterns, malformed labels",
+         "quantifier is finite and enumerated completely; numpy float evaluation of the closed-form coefficients compared at 1e-13 relative",
+         "Lean 4 proof by complete kernel enumeration + translator + differential correspondence"),
 }
 
 NOT_APPLICABLE = {}
 
-PENDING = ["C03", "C04", "C05", "C06", "C09", "C10", "C11", "C12", "C13", "C14", "C15", "C16", "C17", "C18", "C19", "C20"]
+PENDING = ["C06", "C09", "C11", "C12", "C13", "C14", "C15", "C16", "C17", "C18", "C19", "C20"]
 
 
 def main():
